@@ -39,7 +39,7 @@ META = {
     'decided': ['D1 header-field tables (incl. never changed in place at run time, not even through a local alias)', 'D2 header-field typing',
                 'D3 writer/reader slot coverage (flags for every value of the '
                 'flags byte, serial, fields; an unknown field code skips that '
-                'field only)',
+                'field only, the loop over the fields is never left early)',
                 'D4 layout', 'D5 serial allocation', 'D6 size limit',
                 'D7 constructor validation'],
     'undecided': ['equality of parsed and built messages for arbitrary '
@@ -704,6 +704,21 @@ def reader_rules(ctx, classes, table_is_mapping=True):
                'parseMessage must tolerate unknown header field codes: '
                'the code table is subscripted without a KeyError handler '
                'or membership guard at line(s) %s' % unguarded)
+    # whatever the form of the lookup: nothing inside the loop over the
+    # header fields may end the loop early - the fields behind the one that
+    # is skipped (SIGNATURE, REPLY_SERIAL, UNIX_FDS ...) still count
+    for node in prog._iter_scope(fi.node):
+        if isinstance(node, ast.For) and \
+                isinstance(node.iter, ast.Subscript) and \
+                isinstance(node.iter.slice, ast.Constant) and \
+                node.iter.slice.value == 6:
+            leaves = [n for st in node.body for n in ast.walk(st)
+                      if isinstance(n, (ast.Break, ast.Return))]
+            ctx.ob('C03.D3', q, 'field-loop-visits-every-field', not leaves,
+                   'the loop over the header fields is left early (line %s): '
+                   'every field after that one - possibly the signature, '
+                   'the reply serial, the descriptor count - is dropped'
+                   % [n.lineno for n in leaves])
 
 
 def _unguarded_table_subscripts(fn):
